@@ -84,7 +84,7 @@ def run_c15(it):
         route = "fit#%d:%s[%s%s%s%s]" % (fi, kind, f["source"], ",swap" if f.get("swap") else "",
                                         ",order=last" if order else "", ",reuse" if f.get("reuse") else "")
         try:
-            key = (kind, f["source"], f.get("swap"), f.get("order"))
+            key = (kind, f["source"], f.get("swap"), f.get("order")) if kind != "tree" else (kind, f["source"])
             if kind == "hier":
                 if f.get("reuse") and key in models:
                     model = models[key]
@@ -99,8 +99,15 @@ def run_c15(it):
                 link = []
                 tree = False
             elif kind == "tree":
-                model = H.HierarchicalTree(dists_fun=fun, dists_options=dict(opts), merge_hook=hook, order_hook=order,
-                                           show_progress=False)
+                if f.get("reuse") and key in models:
+                    # fit the same tree object again (with this fit's distance function and hook)
+                    model = models[key]
+                    model._model.dists_fun = fun
+                    model._model.merge_hook = hook
+                else:
+                    model = H.HierarchicalTree(dists_fun=fun, dists_options=dict(opts), merge_hook=hook,
+                                               order_hook=order, show_progress=False)
+                    models[key] = model
                 res = model.fit(series)
                 link = [[int(a), int(b), enc(d)] for (a, b, d, _c) in model.linkage]
                 tree = True
